@@ -36,6 +36,12 @@ def calls_for(rng, tier):
         out.append((('close', 1000, ('s', cps)), ('ok', 8, struct.pack('!H', 1000) + ''.join(chr(c) for c in cps).encode('utf-8', 'replace'))))
     out.append((('close', 1000, ('s', [0x20ac] * 41)), ('ok', 8, struct.pack('!H', 1000) + '€'.encode() * 41)))
     out.append((('close', 1000, ('s', [0x20ac] * 42)), ('reject', 'ValueError')))
+    import json as _json
+    for obj in ({'foo': 'bar', 'n': [1, 2.5, None, True]}, ['\u20ac', {'k': 'v'}], 'plain', 12, {}):
+        out.append((('send_json', ('obj', obj)), ('ok', 1, _json.dumps(obj).encode('utf-8'))))
+    out.append((('send_json', ('kwargs', {'foo': 'bar', 'x': 1})), ('ok', 1, _json.dumps({'foo': 'bar', 'x': 1}).encode('utf-8'))))
+    out.append((('send_json', ('both', None)), ('reject', 'ValueError')))
+    out.append((('send_json', ('obj', {1, 2})), ('reject', 'TypeError')))
     for act, exc in ((('send_text', ('b', b'x'), True), 'TypeError'), (('send_text', ('o',), True), 'TypeError'),
                      (('send_binary', ('s', [120]), True), 'TypeError'), (('send_binary', ('o', 'bytearray'), True), 'TypeError'),
                      (('send_ping', ('s', [120])), 'TypeError'), (('send_pong', ('o',)), 'TypeError'), (('send_ping', ('o', 'bytearray')), 'TypeError'),
@@ -328,7 +334,7 @@ def explore(res, tier, seed, model_ok=True):
         if len(mine) != 1:
             fail('accepted call wrote %d frames' % len(mine)); continue
         w = mine[0]
-        compressed = neg and a[0] in ('send_text', 'send_binary') and a[2]
+        compressed = neg and ((a[0] in ('send_text', 'send_binary') and a[2]) or a[0] == 'send_json')
         if compressed:
             if not w.startswith('Z:') or w != 'Z:%d:%s' % (exp[1], exp[2].hex()):
                 fail('compressed frame does not restore the payload (or RSV1 missing): %s' % w[:80], cls='compressed-send')
